@@ -510,6 +510,11 @@ def gen_histories(ck):
         {"steps": [{"doc": a}, {"doc": a2}], "kind": "history:stored:edited-same-ids"},
         {"steps": [{"morph": mm(6, 3, None)}, {"morph": mm(7, 2, None)}], "kind": "history:stored:single-morphology-twice"},
     ]
+    for i, bad in enumerate(["cell", "morphology", "none", "list", "string", "segment"]):
+        # write(<an object the writer does not support>, p), then a valid write + load on the same p must round-trip
+        cases.append({"steps": [{"bad": bad}, {"doc": a if i % 2 else b}], "kind": "history:stored:unsupported-object-first"})
+    cases.append({"steps": [{"doc": a}, {"bad": "none"}, {"bad": "cell"}, {"morph": mm(8, 3, None)}, {"bad": "list"}, {"doc": b}],
+                  "kind": "history:stored:unsupported-object-between"})
     for _ in range(ck.n(25, 250)):
         steps = []
         for k in range(ck.rng.randrange(2, 4)):
@@ -522,6 +527,8 @@ def gen_histories(ck):
                 steps.append({"doc": d})
             else:
                 steps.append({"morph": gen_morph(ck)})
+        if ck.rng.random() < 0.35:
+            steps.insert(ck.rng.randrange(0, len(steps)), {"bad": ck.rng.choice(["cell", "morphology", "none", "list", "string", "segment"])})
         c = {"steps": steps, "kind": "history:random"}
         if ck.rng.random() < 0.15:
             c["preexisting"] = "garbage"
@@ -534,7 +541,7 @@ def doc_term(c):
                                            "; ".join(morph_term(m) for m in c["morphs"]))
 
 
-def view_row(mterm, n, segs, conv, plain):
+def view_row(mterm, n, segs, conv, plain, probes=()):
     """one row of a view cases file; the conversion is written out only when it is not exactly the segment view"""
     view = "[%s]" % "; ".join("None" if x is None else "(Some %s)" % seg_term(x) for x in segs)
     if conv != "IndexError" and conv == segs and all(x is not None for x in segs):
@@ -543,7 +550,9 @@ def view_row(mterm, n, segs, conv, plain):
         cv = "(Some None)"
     else:
         cv = "(Some (Some [%s]))" % "; ".join(seg_term(x) for x in conv)
-    return "(%s, %s, %s, %s, %s)" % (mterm, z(n), view, cv, "true" if plain else "false")
+    pr = "[%s]" % "; ".join("(%s, %s)" % (z(k), "None" if r is None else "(Some %s)" % seg_term(r))
+                            for k, r in probes if not isinstance(r, str))
+    return "(%s, %s, %s, %s, %s, %s)" % (mterm, z(n), view, cv, "true" if plain else "false", pr)
 
 
 def loaded_plain(m):
@@ -565,8 +574,9 @@ def loaded_view_rows(ck, o, origin, rows, checks):
                        expected="one segment per non-root vertex", observed=m.get("view_error"))
             continue
         ov = {"r": "ok", "len": m["len"], "segs": m["view"], "conv": m["conv"]}
+        ov.update({k: m.get(k) for k in ("probes", "len_after_probes", "segs_same_after_probes", "cache_keys", "cache_expected")})
         mt = "(Build_amorph vtx None %s %s %s)" % (vts_raw(m["verts"]), zs(m["conn"]), bs(m["mask"]))
-        rows.append((c, ov, view_row(mt, m["len"], m["view"], m["conv"], c["plain"])))
+        rows.append((c, ov, view_row(mt, m["len"], m["view"], m["conv"], c["plain"], m.get("probes", []))))
         checks.append((c, ov))
 
 
@@ -584,12 +594,15 @@ def translate_static(ck):
     g = ck.gen_v("Gen_C18.v", "From Coq Require Import String List.\nImport ListNotations.\n"
                  "Definition writer_modes : list string := %s.\nDefinition loader_modes : list string := %s.\n"
                  "Definition segmentlist_writes : list string := %s.\nDefinition arraymorph_writes : list string := %s.\n"
-                 % (sl(d["writer_modes"]), sl(d["loader_modes"]), sl(d["segmentlist_writes"]), sl(d["arraymorph_writes"])))
+                 "Definition writer_open_guarded : bool := %s.\n"
+                 % (sl(d["writer_modes"]), sl(d["loader_modes"]), sl(d["segmentlist_writes"]), sl(d["arraymorph_writes"]),
+                    "true" if d["writer_open_guarded"] else "false"))
     ok, out = ck.coqc(g)
     ck.oblige("Gen_C18.v:compiles", ok, out[-1000:], kind="translate")
     inst = ck.gen_v("Inst_C18.v", "From Coq Require Import String List Bool.\nFrom LNML Require Import Model.ArrayMorph.\n"
                     "From Run Require Import Gen_C18.\n"
-                    "Lemma static_ok : c18_static_ok writer_modes loader_modes segmentlist_writes arraymorph_writes = true.\n"
+                    "Lemma static_ok : c18_static_ok writer_modes loader_modes segmentlist_writes arraymorph_writes\n"
+                    "                                writer_open_guarded = true.\n"
                     "Proof. vm_compute. reflexivity. Qed.\n")
     iok, _ = ck.compile_obligations(inst, kind="instance")
     if not iok:
@@ -707,6 +720,41 @@ def check_view(ck, c, o):
         ck.witness(K_CONVERT, "to_neuroml_morphology() does not yield the segments of the segment view "
                               "(vertices 1..n-1, each with its parent vertex)",
                    input=inp, expected=exp, observed=o["conv"], broken="C18_convert_agrees_with_view")
+        ok = False
+    return ok
+
+
+def check_probes(ck, c, o):
+    """negative clause: an index outside 0..len-1 is refused or (numpy wrap-around) answers with the segment of a NON-ROOT
+    vertex and that vertex's / its parent's rows; probing leaves len, the segments and the instantiated cache alone"""
+    inp = {"vertices": c["verts"], "connectivity": c["conn"], "physical_mask": c["mask"]}
+    if c.get("bits"):
+        inp["note"] = "morphology returned by ArrayMorphLoader.load (%s); vertex rows are codes, see fb()" % c.get("origin")
+    if o.get("r") != "ok" or o.get("probes") is None:
+        return True
+    ok = True
+    if c["plain"]:
+        exp = dict((e[0], e) for e in expected_segments(c))
+        for k, r in o["probes"]:
+            if r is None:
+                continue
+            if isinstance(r, str) or r[0] not in exp or r[:3] != exp[r[0]][:3]:
+                ck.witness(K_VIEW, "the segment view answers index %d (outside 0..len-1) with something that is not the segment "
+                                   "of a non-root vertex" % k, input=dict(inp, index=k),
+                           expected="IndexError, or the segment (vertex row, parent row) of a vertex that has a parent",
+                           observed=r if isinstance(r, str) else {"id": r[0], "end_points": [[repr(unfb(b)) for b in r[1]],
+                                                                                             [repr(unfb(b)) for b in r[2]]],
+                                                                  "is_root_vertex": c["conn"][r[0]] == -1
+                                                                  if 0 <= r[0] < len(c["conn"]) else None},
+                           broken="C18_view_answers_only_non_root")
+                ok = False
+                break
+    if o["len_after_probes"] != o["len"] or not o["segs_same_after_probes"] or o["cache_keys"] != o["cache_expected"]:
+        ck.witness(K_VIEW, "probing indices outside 0..len-1 changed the segment view (length, segments or instantiated cache)",
+                   input=inp, expected={"len": o["len"], "cache_keys": o["cache_expected"]},
+                   observed={"len": o["len_after_probes"], "segments_unchanged": o["segs_same_after_probes"],
+                             "cache_keys": o["cache_keys"], "probes": [[k, (r if r is None or isinstance(r, str) else r[0])] for k, r in o["probes"]]},
+                   broken="C18_view_answers_only_non_root")
         ok = False
     return ok
 
@@ -833,7 +881,7 @@ def run(ck):
         if o["r"] != "ok":
             ck.disagree("segments_view", strip(c), "a morphology", o["r"], note="constructor refused a generated input")
             continue
-        rows.append((c, o, view_row(morph_term(c), o["len"], o["segs"], o["conv"], c["plain"])))
+        rows.append((c, o, view_row(morph_term(c), o["len"], o["segs"], o["conv"], c["plain"], o.get("probes", []))))
     # the same clause on every morphology that came back from ArrayMorphLoader.load (documents, single, histories)
     loaded_checks = []
     for i, o in enumerate(out["docs"]):
@@ -845,19 +893,24 @@ def run(ck):
             loaded_view_rows(ck, o, "history %d step %d" % (i, k), rows, loaded_checks)
     ck.tally("view:loaded-from-file", len(loaded_checks))
     view_hdr = (
-        "Definition vrow : Type := (amorph vtx * Z * list (option (segment vtx)) * option (option (list (segment vtx))) * bool)%type.\n"
+        "Definition vrow : Type := (amorph vtx * Z * list (option (segment vtx)) * option (option (list (segment vtx))) * bool\n"
+        "                           * list (Z * option (segment vtx)))%type.\n"
         "(* the conversion column: None = the implementation's to_neuroml_morphology() returned exactly the segments of its\n"
-        "   segment view (all present); Some x = what it returned otherwise (None = IndexError) *)\n"
+        "   segment view (all present); Some x = what it returned otherwise (None = IndexError).\n"
+        "   last column: m.segments[k] for probe indices k outside 0..len-1 (None = IndexError) *)\n"
         "Definition conv_of (x : vrow) : amorph vtx * option (list (segment vtx)) :=\n"
-        "  match x with (m, _, v, Some cv, _) => (m, cv) | (m, _, v, None, _) => (m, sequence v) end.\n"
-        "Definition v_ok (x : vrow) := match x with (m, n, v, _, _) => view_case_ok (m, n, v) end.\n"
+        "  match x with (m, _, v, Some cv, _, _) => (m, cv) | (m, _, v, None, _, _) => (m, sequence v) end.\n"
+        "Definition v_ok (x : vrow) := match x with (m, n, v, _, _, _) => view_case_ok (m, n, v) end.\n"
         "Definition c_ok (x : vrow) := conv_case_ok (to_neuroml_morphology vtx) (conv_of x).\n"
         "Definition c_orig_ok (x : vrow) := conv_case_ok (to_neuroml_morphology_orig vtx) (conv_of x).\n"
-        "Definition d_ok (x : vrow) := match x with (m, _, _, _, f) => view_dom_case_ok (m, f) end.\n")
+        "Definition d_ok (x : vrow) := match x with (m, _, _, _, f, _) => view_dom_case_ok (m, f) end.\n"
+        "Definition p_ok (x : vrow) := match x with (m, _, _, _, _, ps) =>\n"
+        "  forallb (fun kp => opt_eqb seg_eqb (segment_at vtx m (fst kp)) (snd kp)) ps end.\n")
     for fi, part in enumerate(chunks(rows, 150)):
         jobs.append(("view", part, "Cases_C18_view_%d.v" % fi,
                      view_hdr + "Definition rows : list vrow :=\n [%s].\n" % ";\n  ".join(x[2] for x in part),
-                     ["mismatches v_ok rows", "mismatches c_ok rows", "mismatches c_orig_ok rows", "mismatches d_ok rows"]))
+                     ["mismatches v_ok rows", "mismatches c_ok rows", "mismatches c_orig_ok rows", "mismatches d_ok rows",
+                      "mismatches p_ok rows"]))
     # ---- documents and single morphologies
     rows = []
     for c, o in zip(dc, out["docs"]):
@@ -896,6 +949,11 @@ def run(ck):
         ck.tally(":".join(c["kind"].split(":")[:2]))
         items, rts, bad = [], [], False
         for st, so in zip(c["steps"], o["steps"]):
+            if "bad" in st:
+                # not part of the model's history: by C18_file_history what the path held before (here: whatever the
+                # writer left after refusing / ignoring an unsupported object) cannot matter for the later steps
+                ck.tally("history:unsupported-object-step:" + so["r"].split(":")[0])
+                continue
             t = rt_term(so)
             if t is None:
                 ck.disagree("roundtrip_history", strip(c), "RtOk/RtNodeError/RtLoadError per step", so,
@@ -960,6 +1018,11 @@ def run(ck):
                             if i not in res[2] else "")
             orig["convert"] += len([i for i in res[1] if i not in res[2]])
             dom_bad += len(res[3])
+            for i in res[4]:
+                dis["view"] += 1
+                ck.disagree("segment_at (which indices the segment view answers)", strip(part[i][0]),
+                            "m.segments[k] for k outside 0..len-1 as numpy indexing of the index table gives it",
+                            {"probes": part[i][1].get("probes")})
         elif kind == "doc":
             for i in res[0]:
                 dis["document"] += 1
@@ -1008,6 +1071,7 @@ def run(ck):
     for c, o in zip(vw, out["views"]):
         if c["plain"]:
             check_view(ck, c, o)
+        check_probes(ck, c, o)
         ck.count(1, nontrivial_key=["view", c["conn"], c["verts"][:2], c["mask"]] if len(c["conn"]) >= 2 else None)
     for c, o in zip(dc, out["docs"]):
         _, in_domain = effective_names(c)
@@ -1021,9 +1085,12 @@ def run(ck):
     for c, o in loaded_checks:
         if c["plain"]:
             check_view(ck, c, o)
+        check_probes(ck, c, o)
         ck.count(1, nontrivial_key=["loaded-view", c["origin"], c["loaded_index"]] if len(c["conn"]) >= 2 else None)
     for c, o in zip(hs, out["histories"]):
         for k, (st, so) in enumerate(zip(c["steps"], o["steps"])):
+            if "bad" in st:
+                continue
             in_domain = effective_names(st["doc"])[1] if "doc" in st else True
             if not in_domain:
                 continue
@@ -1038,7 +1105,8 @@ def run(ck):
                            broken="C18_file_history")
                 break
         ck.count(1, nontrivial_key=["history", strip(c)],
-                 sample={"history": [("doc" if "doc" in st else "morph") for st in c["steps"]],
+                 sample={"history": [("doc" if "doc" in st else "morph" if "morph" in st else "unsupported:" + st["bad"])
+                                     for st in c["steps"]],
                          "implementation": [so.get("r") for so in o["steps"]]} if "stored" in c["kind"] else None)
     if static is not None:
         bad = []
@@ -1053,6 +1121,7 @@ def run(ck):
                                                            "fractions_along", "segments"})
         if extra:
             bad.append("ArrayMorphology assigns attributes outside its arrays: self.%s" % ", self.".join(extra))
+        bad += ["ArrayMorphWriter: " + x for x in static.get("writer_open_problems", [])]
         ck.extra["static_facts_deviations"] = bad
     for c, o in zip(fr, out["frames"]):
         check_frame(ck, c, o)
